@@ -93,6 +93,11 @@ func (p *networkSimplexProcessor) minSlackNonTreeEdge(edges []*graph.Edge, e *gr
 func (p *networkSimplexProcessor) feasibleTree(g *graph.DGraph) {
 	p.initLayers(g)
 	for {
+		// rebuild the tight tree from scratch: tree flags left from the previous iteration
+		// can close a cycle with edges that have become tight since
+		for _, e := range g.Edges {
+			e.IsInSpanningTree = false
+		}
 		treeNodes := tightTree(g.Nodes[0], graph.EdgeSet{}, graph.NodeSet{})
 		if len(treeNodes) == len(g.Nodes) {
 			break
